@@ -2,7 +2,7 @@
 
 PROP = dict(
     module="JadeModel.Props.C19", ns="Jade.C19",
-    required=[
+    required=["C19_manager_is_node_zero", "C19_worker_records_nothing", "C19_manager_records_all", "C19_runner_flag_is_am_i_manager", 
         "posix_on_linux",
         "split_error_kind", "split_concat", "split_pad", "split_safe_word", "split_append", "split_concat_list",
         "split_plain_words", "split_quote_roundtrip", "split_dquote_roundtrip", "split_quote_all",
@@ -17,7 +17,7 @@ PROP = dict(
                "posix flag, suffix templates and guards, environment variable names, stdio file templates and Result(...) "
                "arguments are regenerated from the source on every run.  The shlex state machine is tied to CPython's "
                "shlex by differential testing through the real AsyncCliCommand.run (exhaustive for length <= 5 over a "
-               "10-character alphabet in the thorough tier).",
+               "10-character alphabet in the thorough tier). Multi-node allocations: exactly node 0 (SLURM_NODEID == '0', generated) is the manager node; it records every result, every other node none (C19_manager_is_node_zero, C19_worker_records_nothing, C19_manager_records_all).",
     level_note="Trusted: Lean kernel (+propext, Classical.choice, Quot.sound), tools/extract.py + tools/sites/command.py, the "
                "`command` correspondence suite (fake Popen at the process boundary; real processes in the probe cases). "
                "Outside the model, covered by correspondence only: the operating system handing argv / environment / "
